@@ -180,6 +180,10 @@ func Exec(t *testing.T, h *Harness, prop string, cs simcore.Case, seed uint64, r
 		res.Run = CurrentRun
 		c.mu.Lock()
 		res.Violation, res.Class = c.violation, c.class
+		if p := s.Panicked(); p != "" && res.Violation == "" {
+			res.Class = prop + "/panic"
+			res.Violation = res.Class + " " + p
+		}
 		if res.Violation != "" && len(c.tags) > 0 {
 			var ts []string
 			for t := range c.tags {
@@ -190,10 +194,6 @@ func Exec(t *testing.T, h *Harness, prop string, cs simcore.Case, seed uint64, r
 		}
 		res.Probes, res.Faults, res.State, res.Ops = c.probes, c.faults, c.state, c.ops
 		c.mu.Unlock()
-		if p := s.Panicked(); p != "" && res.Violation == "" {
-			res.Class = prop + "/panic"
-			res.Violation = res.Class + " " + p
-		}
 		res.LogHash, res.LogLen = s.LogHash(), s.LogLen()
 		res.Steps, res.Switches, res.ClockJumps, res.SchedHash = s.Steps, s.Switches, s.ClockJumps, s.SchedHash
 		res.SimTimeNs = int64(s.SimTime())
